@@ -203,7 +203,7 @@ pub fn run_body(ctx: &Ctx, rep: &mut Report) {
     for n in &be.names {
         rep.seen("dist-backends", n);
     }
-    rep.set_floor("dist-backends", ctx.param_u64("expect_dist_backends", 3));
+    rep.set_floor_always("dist-backends", ctx.param_u64("expect_dist_backends", 3));
     // (the memoised per-byte table is too slow to build under an interpreter)
     let t = if ctx.scale < 1.0 { Vec::new() } else { byte_table() };
     let tb = |x: u8, y: u8| {
